@@ -121,7 +121,7 @@ class Ctx:
         self.log("validated %d traces with %s: %d rejected" % (len(traces), module, len(final)))
         return final
 
-    def _validate_once(self, module, cfg, traces, *, shards=16, dfs=False, timeout=3600, env=None, libs=(), heap="3g"):
+    def _validate_once(self, module, cfg, traces, *, shards=16, dfs=False, timeout=3600, env=None, libs=(), heap="2g"):
         if not traces:
             return []
         shards = max(1, min(shards, (len(traces) + 199) // 200))
